@@ -339,6 +339,42 @@ class Obj(Ty):
         return "obj:" + self.cls
 
 
+class DRec(Ty):
+    """Heap dict used as a record: fixed literal string keys (some optional).  Stored inside a
+    Dict(k, DRec.rec()) it is boxed into the Rec value `rec()`; reads of such a slot in exec mode
+    yield an ItemRef so that in-place updates go to the slot (ownership assumption: a record
+    belongs to its table slot)."""
+
+    kind = "drec"
+    heap = True
+
+    def __init__(self, name, optional=(), **fields):
+        self.name = name
+        self.fields = dict(fields)
+        self.optional = tuple(optional)
+
+    def key(self):
+        return "drec:" + self.name
+
+    def rec(self):
+        f = dict(self.fields)
+        for o in self.optional:
+            f["has_" + o] = Bool
+        return Rec(self.name, **f)
+
+
+class ItemRef(Ty):
+    """reference to a record stored in a dict slot: z = (dict ref V, key z3 term)"""
+
+    kind = "itemref"
+
+    def __init__(self, drec):
+        self.drec = drec
+
+    def key(self):
+        return "itemref:" + self.drec.name
+
+
 class Nullable(Ty):
     """A reference that may be None: value is (flag: z3 Bool 'is None', ref V).  Resolved by a
     path fork the first time it is read."""
